@@ -35,6 +35,7 @@ func contract_VarPool_GetName(p *VarPool, baseName string) (result string) {
 	vs.Requires(poolInv(p))
 	vs.Ensures("fresh", !vs.Old(issued(p, result)))
 	vs.Ensures("nonempty", vs.Implies(baseName != "", result != ""))
+	vs.Ensures("extends_base", vs.StrPrefixOf(baseName, result))
 	vs.Ensures("recorded", issued(p, result) && issued(p, baseName))
 	vs.Ensures("monotone", vs.ForallString(func(s string) bool { return vs.Implies(vs.Old(issued(p, s)), issued(p, s)) }))
 	vs.Ensures("exact", vs.ForallString(func(s string) bool {
@@ -69,7 +70,7 @@ func contract_VarPool_GetChannel(p *VarPool, t types.Type) (result string) {
 //kvc:contract (*VarPool).Get
 func contract_VarPool_Get(p *VarPool, t types.Type) (result string) {
 	vs.Requires(poolInv(p))
-	vs.Ensures("nonempty", result != "")
+	vs.Ensures("nonempty", result != "" && result != "_")
 	vs.Ensures("fresh", !vs.Old(issued(p, result)))
 	vs.Ensures("recorded", issued(p, result))
 	vs.Ensures("monotone", vs.ForallString(func(s string) bool { return vs.Implies(vs.Old(issued(p, s)), issued(p, s)) }))
@@ -82,17 +83,18 @@ func contract_VarPool_Get(p *VarPool, t types.Type) (result string) {
 //
 //kvc:contract (*VarPool).getBaseName
 func contract_VarPool_getBaseName(p *VarPool, t types.Type) (result string) {
-	vs.Ensures("nonempty", result != "")
+	vs.Ensures("nonempty", result != "" && !vs.StrPrefixOf("_", result))
 	return
 }
 
-// Names of declared types are non-empty, and lower-camel-casing keeps a name non-empty (trusted facts
+// Names of types that can be named in a declaration are non-empty and do not start with an underscore
+// ... and lower-camel-casing keeps that (trusted facts
 // about go/types and internal/pkg/strings; the latter is length preserving).
 //
 //kvc:axiom
 func axiomTypeNamesNonEmpty() bool {
-	return vs.ForallRef(func(o *types.TypeName) bool { return lowerCamelOf(o.Name()) != "" }) &&
-		vs.ForallRef(func(b *types.Basic) bool { return lowerCamelOf(b.Name()) != "" })
+	return vs.ForallRef(func(o *types.TypeName) bool { return lowerCamelOf(o.Name()) != "" && !vs.StrPrefixOf("_", lowerCamelOf(o.Name())) }) &&
+		vs.ForallRef(func(b *types.Basic) bool { return lowerCamelOf(b.Name()) != "" && !vs.StrPrefixOf("_", lowerCamelOf(b.Name())) })
 }
 
 func lowerCamelOf(s string) string { return kstrings.ToLowerCamel(s) }
@@ -162,6 +164,7 @@ func contract_InjectorParam_Name(ip *InjectorParam, varPool *VarPool) (result st
 	vs.Ensures("unreferenced_blank", vs.Implies(vs.Old(ip.name) == "" && ip.refCounter == 0, result == "_" && ip.name == ""))
 	vs.Ensures("fresh_when_allocated", vs.Implies(vs.Old(ip.name) == "" && ip.refCounter != 0, !vs.Old(issued(varPool, result)) && issued(varPool, result) && ip.name == result))
 	vs.Ensures("referenced_is_memoised", vs.Implies(ip.refCounter != 0, result == ip.name && result != ""))
+	vs.Ensures("blank_only_when_unreferenced", vs.Implies(vs.Old(ip.name) == "" && ip.refCounter != 0, result != "_"))
 	vs.Ensures("monotone", vs.ForallString(func(s string) bool { return vs.Implies(vs.Old(issued(varPool, s)), issued(varPool, s)) }))
 	vs.Ensures("inv", poolInv(varPool))
 	vs.Modifies(ip.name, varPool.vars)
@@ -391,6 +394,10 @@ func isCaseCtxDone(c ast.Stmt) bool {
 		isReceiveFromCtxDone(vs.As[*ast.CaseClause](c).List[0])
 }
 
+// gMainCont: the error continuation of the injector's own flow (set by generateStmts; goroutine bodies use
+// chainReturnErrStmts instead).
+var gMainCont func(ast.Expr) []ast.Stmt
+
 // cancelBranchBody: the statements run when the context is cancelled while waiting.
 func cancelBranchBody(s ast.Stmt) []ast.Stmt {
 	return vs.As[*ast.CaseClause](vs.As[*ast.SelectStmt](s).Body.List[1]).Body
@@ -405,6 +412,16 @@ func contract_buildWaitStatement(stmt *InjectorProviderCallStmt, hasCtx bool, ch
 	// on cancellation the enclosing function returns through its error continuation with the context's error
 	vs.Ensures("cancel_branch_is_continuation_of_ctx_err", vs.Implies(hasCtx && returnErrStmts != nil,
 		vs.ExistsPtr(func(e *ast.CallExpr) bool {
+			return isSelectorCall(ast.Expr(e), "ctx", "Err") && vs.SameSlice(cancelBranchBody(result), returnErrStmts(ast.Expr(e)))
+		})))
+	// C07: goroutines give up on cancellation without signalling completion, so a wait on a channel a goroutine closes must
+	// itself be abandonable whenever a context exists. KNOWN FINDING on the pinned tree: with a context but no error result
+	// (returnErrStmts == nil) the main flow blocks on a plain receive.
+	vs.Ensures("cancellable_whenever_ctx_exists", vs.Implies(hasCtx, isCancellableWait(result, channel)))
+	// C06: in the injector's own flow the cancel branch must report the group's error (the provider failure that cancelled the
+	// derived context), not ctx.Err() of that derived context. KNOWN FINDING on the pinned tree.
+	vs.Ensures("main_flow_cancel_branch_reports_group_error", vs.Implies(hasCtx && returnErrStmts != nil && vs.SameFunc(returnErrStmts, gMainCont),
+		!vs.ExistsPtr(func(e *ast.CallExpr) bool {
 			return isSelectorCall(ast.Expr(e), "ctx", "Err") && vs.SameSlice(cancelBranchBody(result), returnErrStmts(ast.Expr(e)))
 		})))
 	vs.Allocates()
@@ -960,4 +977,164 @@ func inv_ChainStmt_Stmt(stmt *InjectorChainStmt, varPool *VarPool, injector *Inj
 	vs.Invariant("pool_inv", poolInv(varPool))
 	vs.Invariant("names_stable", namesAreStable())
 	vs.Invariant("still_ready", injectorArgsNonNil(injector) && vs.Forall(len(stmt.Statements), func(i int) bool { return threadStmtReady(stmt.Statements[i]) }))
+}
+
+// ---------------------------------------------------------------------------
+// Function body assembly: declarations, goroutine group, join, return (C03, C06, C07, C08, C04)
+// ---------------------------------------------------------------------------
+
+// isEgWaitCall: the expression `eg.Wait()`.
+func isEgWaitCall(e ast.Expr) bool { return isSelectorCall(e, "eg", "Wait") }
+
+// isJoinReportingError: `if err := eg.Wait(); err != nil { return nil, err }` - waits for every goroutine and
+// returns the group's (first) error.
+func isJoinReportingError(s ast.Stmt) bool {
+	return vs.TypeIs[*ast.IfStmt](s) && vs.As[*ast.IfStmt](s) != nil &&
+		vs.TypeIs[*ast.AssignStmt](vs.As[*ast.IfStmt](s).Init) && vs.As[*ast.AssignStmt](vs.As[*ast.IfStmt](s).Init) != nil &&
+		vs.As[*ast.AssignStmt](vs.As[*ast.IfStmt](s).Init).Tok == token.DEFINE &&
+		len(vs.As[*ast.AssignStmt](vs.As[*ast.IfStmt](s).Init).Lhs) == 1 && len(vs.As[*ast.AssignStmt](vs.As[*ast.IfStmt](s).Init).Rhs) == 1 &&
+		isEgWaitCall(vs.As[*ast.AssignStmt](vs.As[*ast.IfStmt](s).Init).Rhs[0]) &&
+		vs.TypeIs[*ast.BinaryExpr](vs.As[*ast.IfStmt](s).Cond) && vs.As[*ast.BinaryExpr](vs.As[*ast.IfStmt](s).Cond) != nil &&
+		vs.As[*ast.BinaryExpr](vs.As[*ast.IfStmt](s).Cond).Op == token.NEQ &&
+		vs.As[*ast.BinaryExpr](vs.As[*ast.IfStmt](s).Cond).X == vs.As[*ast.AssignStmt](vs.As[*ast.IfStmt](s).Init).Lhs[0] &&
+		isIdentNamed(vs.As[*ast.BinaryExpr](vs.As[*ast.IfStmt](s).Cond).Y, "nil") &&
+		vs.As[*ast.IfStmt](s).Body != nil && len(vs.As[*ast.IfStmt](s).Body.List) == 1 &&
+		vs.TypeIs[*ast.ReturnStmt](vs.As[*ast.IfStmt](s).Body.List[0]) && vs.As[*ast.ReturnStmt](vs.As[*ast.IfStmt](s).Body.List[0]) != nil &&
+		len(vs.As[*ast.ReturnStmt](vs.As[*ast.IfStmt](s).Body.List[0]).Results) == 2 &&
+		vs.As[*ast.ReturnStmt](vs.As[*ast.IfStmt](s).Body.List[0]).Results[1] == vs.As[*ast.AssignStmt](vs.As[*ast.IfStmt](s).Init).Lhs[0]
+}
+
+// isJoinDroppingError: `_ = eg.Wait()` - waits for every goroutine, ignores the group's error.
+func isJoinDroppingError(s ast.Stmt) bool {
+	return vs.TypeIs[*ast.AssignStmt](s) && vs.As[*ast.AssignStmt](s) != nil && vs.As[*ast.AssignStmt](s).Tok == token.ASSIGN &&
+		len(vs.As[*ast.AssignStmt](s).Lhs) == 1 && isIdentNamed(vs.As[*ast.AssignStmt](s).Lhs[0], "_") &&
+		len(vs.As[*ast.AssignStmt](s).Rhs) == 1 && isEgWaitCall(vs.As[*ast.AssignStmt](s).Rhs[0])
+}
+
+//kvc:contract generateAsyncWaitStatements
+func contract_generateAsyncWaitStatements(injector *Injector) (result []ast.Stmt) {
+	vs.Requires(injector != nil)
+	// C03/C08: before the normal return every goroutine is joined
+	vs.Ensures("joins_every_goroutine", len(result) == 1 && (isJoinReportingError(result[0]) || isJoinDroppingError(result[0])))
+	vs.Ensures("error_injector_reports_group_error", vs.Implies(injector.IsReturnError, isJoinReportingError(result[0])))
+	// C07: the group's error (a cancellation that made a goroutine give up) must not be dropped, because the value
+	// about to be returned may then be incomplete. KNOWN FINDING on the pinned tree for injectors without an error result.
+	vs.Ensures("group_error_never_dropped", isJoinReportingError(result[0]))
+	vs.Allocates()
+	return
+}
+
+// isEgWithContext: `eg, ctx := errgroup.WithContext(<name>)`.
+func isEgWithContext(s ast.Stmt, ctxName string) bool {
+	return vs.TypeIs[*ast.AssignStmt](s) && vs.As[*ast.AssignStmt](s) != nil && vs.As[*ast.AssignStmt](s).Tok == token.DEFINE &&
+		len(vs.As[*ast.AssignStmt](s).Lhs) == 2 && isIdentNamed(vs.As[*ast.AssignStmt](s).Lhs[0], "eg") && isIdentNamed(vs.As[*ast.AssignStmt](s).Lhs[1], "ctx") &&
+		len(vs.As[*ast.AssignStmt](s).Rhs) == 1 && vs.TypeIs[*ast.CallExpr](vs.As[*ast.AssignStmt](s).Rhs[0]) &&
+		vs.As[*ast.CallExpr](vs.As[*ast.AssignStmt](s).Rhs[0]) != nil && len(vs.As[*ast.CallExpr](vs.As[*ast.AssignStmt](s).Rhs[0]).Args) == 1 &&
+		isIdentNamed(vs.As[*ast.CallExpr](vs.As[*ast.AssignStmt](s).Rhs[0]).Args[0], ctxName)
+}
+
+// isEgPlain: `eg := &errgroup.Group{}`.
+func isEgPlain(s ast.Stmt) bool {
+	return vs.TypeIs[*ast.AssignStmt](s) && vs.As[*ast.AssignStmt](s) != nil && vs.As[*ast.AssignStmt](s).Tok == token.DEFINE &&
+		len(vs.As[*ast.AssignStmt](s).Lhs) == 1 && isIdentNamed(vs.As[*ast.AssignStmt](s).Lhs[0], "eg") &&
+		len(vs.As[*ast.AssignStmt](s).Rhs) == 1 && vs.TypeIs[*ast.UnaryExpr](vs.As[*ast.AssignStmt](s).Rhs[0])
+}
+
+//kvc:contract generateErrGroupDeclaration
+func contract_generateErrGroupDeclaration(ctxParamName string) (result *ast.AssignStmt) {
+	// C07: goroutines observe the caller's context exactly when the injector has one
+	vs.Ensures("group_derives_from_callers_context", vs.Implies(ctxParamName != "", isEgWithContext(ast.Stmt(result), ctxParamName)))
+	vs.Ensures("plain_group_without_context", vs.Implies(ctxParamName == "", isEgPlain(ast.Stmt(result))))
+	vs.Ensures("nonnil", result != nil)
+	vs.Allocates()
+	return
+}
+
+// createASTTypeExpr: spelled type of t. Only its interface to callers is stated here (see the
+// C04 section for what is and is not decided about the spelling).
+//
+//kvc:contract createASTTypeExpr
+func contract_createASTTypeExpr(pkg string, t types.Type, varPool *VarPool, imports map[string]*Import) (result ast.Expr, err error) {
+	vs.Requires(poolInv(varPool) && imports != nil)
+	vs.Ensures("expr_or_error", (err == nil) == (result != nil))
+	vs.Ensures("pool_inv", poolInv(varPool))
+	vs.Ensures("imports_stay_nonnil", vs.Implies(vs.Old(importsNonNil(imports)), importsNonNil(imports)))
+	vs.Ensures("names_stable", namesAreStable())
+	vs.Modifies(varPool.vars, imports)
+	vs.Allocates()
+	return
+}
+
+// isChanMake: the value spec `<name> = make(chan struct{})`.
+func isChanMake(sp ast.Spec, name string) bool {
+	return vs.TypeIs[*ast.ValueSpec](sp) && vs.As[*ast.ValueSpec](sp) != nil && len(vs.As[*ast.ValueSpec](sp).Names) == 1 &&
+		vs.As[*ast.ValueSpec](sp).Names[0] != nil && vs.As[*ast.ValueSpec](sp).Names[0].Name == name &&
+		len(vs.As[*ast.ValueSpec](sp).Values) == 1 && vs.TypeIs[*ast.CallExpr](vs.As[*ast.ValueSpec](sp).Values[0]) &&
+		vs.As[*ast.CallExpr](vs.As[*ast.ValueSpec](sp).Values[0]) != nil && isIdentNamed(vs.As[*ast.CallExpr](vs.As[*ast.ValueSpec](sp).Values[0]).Fun, "make")
+}
+
+// isVarDecl: the value spec `<name> <type>` (no initialiser).
+func isVarDecl(sp ast.Spec, name string) bool {
+	return vs.TypeIs[*ast.ValueSpec](sp) && vs.As[*ast.ValueSpec](sp) != nil && len(vs.As[*ast.ValueSpec](sp).Names) == 1 &&
+		vs.As[*ast.ValueSpec](sp).Names[0] != nil && vs.As[*ast.ValueSpec](sp).Names[0].Name == name &&
+		len(vs.As[*ast.ValueSpec](sp).Values) == 0 && vs.As[*ast.ValueSpec](sp).Type != nil
+}
+
+func injectorVarsReady(injector *Injector) bool {
+	return injector != nil && vs.Forall(len(injector.Vars), func(i int) bool {
+		return vs.IsAllocated(injector.Vars[i]) && len(injector.Vars[i].types) >= 1 && importsNonNil(injector.Vars[i].ReferencedImports) &&
+			injector.Vars[i].name != "_" &&
+			(!injector.Vars[i].withChannel || injector.Vars[i].refCounter > 0)
+	})
+}
+
+// everyVarDeclared: each referenced provided value among the first n has its variable declared, and its
+// completion channel created if some other thread waits for it.
+func everyVarDeclared(injector *Injector, n int, specs []ast.Spec) bool {
+	return vs.Forall(n, func(i int) bool {
+		return vs.Implies(injector.Vars[i].refCounter > 0,
+			vs.Exists(len(specs), func(j int) bool { return injector.Vars[i].name != "" && isVarDecl(specs[j], injector.Vars[i].name) }) &&
+				vs.Implies(injector.Vars[i].withChannel,
+					vs.Exists(len(specs), func(j int) bool {
+						return injector.Vars[i].channelName != "" && isChanMake(specs[j], injector.Vars[i].channelName)
+					})))
+	})
+}
+
+//kvc:split generateVariableSpecs
+//kvc:contract generateVariableSpecs
+func contract_generateVariableSpecs(pkg string, injector *Injector, varPool *VarPool, imports map[string]*Import) (result []ast.Spec, err error) {
+	vs.Requires(injectorVarsReady(injector) && poolInv(varPool) && imports != nil &&
+		vs.Forall(len(injector.Vars), func(i int) bool { return !vs.SameMap(injector.Vars[i].ReferencedImports, imports) }))
+	// C01/C03/C04: every variable assigned with `=` is declared, every channel that is waited on or closed is made
+	vs.Ensures("declares_every_value_and_channel", vs.Implies(err == nil, everyVarDeclared(injector, len(injector.Vars), result)))
+	vs.Ensures("names_stable", namesAreStable())
+	vs.Ensures("pool_inv", poolInv(varPool))
+	vs.Modifies(vs.FieldOfAll(injector.Vars[0].name), vs.FieldOfAll(injector.Vars[0].channelName), vs.FieldOfAll(imports[""].IsUsed), varPool.vars, imports)
+	vs.Allocates()
+	return
+}
+
+//kvc:loop generateVariableSpecs "for _, param := range injector.Vars"
+func inv_generateVariableSpecs(injector *Injector, varPool *VarPool, imports map[string]*Import, specs []ast.Spec, kvcIdx int) {
+	vs.Invariant("pool_inv", poolInv(varPool))
+	vs.Invariant("names_stable", namesAreStable())
+	vs.Invariant("no_blank_names", vs.Forall(len(injector.Vars), func(i int) bool { return injector.Vars[i].name != "_" }))
+	vs.Invariant("declared_so_far", everyVarDeclared(injector, kvcIdx, specs))
+}
+
+// Proof hints: the spec just appended is the witness for "declared".
+//
+//kvc:ghost generateVariableSpecs after "specs = append(specs, &ast.ValueSpec{ Names: []*ast.Ident{ast.NewIdent(paramName)}"
+func hintVarDeclared(specs []ast.Spec, paramName string) {
+	vs.Assert("just_declared_variable", len(specs) >= 1 && isVarDecl(specs[len(specs)-1], paramName))
+}
+
+//kvc:ghost generateVariableSpecs after "specs = append(specs, &ast.ValueSpec{ Names: []*ast.Ident{ast.NewIdent(param.ChannelName(varPool))}"
+func hintChanMade(specs []ast.Spec, param *InjectorParam) {
+	vs.Assert("just_made_channel", len(specs) >= 1 && isChanMake(specs[len(specs)-1], param.channelName))
+}
+
+//kvc:loop generateVariableSpecs "for _, imp := range param.ReferencedImports"
+func inv_generateVariableSpecs_imports() {
 }
